@@ -11,7 +11,7 @@
 (* spec/mc — the model refines the contract — and (b) on traces of the     *)
 (* real application by spec/trace/Trace.tla.                                *)
 (***************************************************************************)
-EXTENDS Events, Vesting, Oracle, Batch, Orders, Authority, Epochs
+EXTENDS Events, Vesting, Oracle, Batch, Orders, Authority, Epochs, Registry
 
 -----------------------------------------------------------------------------
 (* Ghost state transition *)
@@ -481,7 +481,7 @@ StepChecks(k, e, s, t, g) ==
   C15StepChecks(k, e, s, t, g) \cup C12StepChecks(k, e, s, t, g) \cup C18StepChecks(k, e, s, t, g) \cup LedgerChecks(k, e, s, t, g)
     \cup PositionChecks(k, e, s, t, g) \cup KProductChecks(k, e, s, t, g) \cup C13StepChecks(k, e, s, t, g) \cup C07StepChecks(k, e, s, t, g)
     \cup C14StepChecks(k, e, s, t, g.vest) \cup C16StepChecks(k, e, s, t) \cup C04StepChecks(k, e, s, t, g.batch) \cup C20StepChecks(k, e, s, t) \cup C17StepChecks(k, e, s, t)
-    \cup (IF "epochs" \in DOMAIN s /\ "epochs" \in DOMAIN t THEN ExtStepChecks(k, e, s, t) ELSE {})
+    \cup (IF "epochs" \in DOMAIN s /\ "epochs" \in DOMAIN t THEN ExtStepChecks(k, e, s, t) \cup RegistryStepChecks(k, e, s, t) ELSE {})
 
 \* every state invariant of the specification (Invariants.tla + the sub-machines)
 AllInvChecks(s, g) == InvChecks(s, g) \cup InvC14(s, g.vest) \cup InvC16(s) \cup InvC20(s)
